@@ -1,5 +1,5 @@
 (* Proofs/C16_tree.v -- lemmas about Model/C16_tree.v *)
-From Coq Require Import ZArith List Bool Ascii String Lia Sorted.
+From Coq Require Import ZArith List Bool Ascii String Lia Sorted Permutation.
 From Typhon Require Import Base.Calendar Base.CalendarProofs Model.C02_template Model.C16_closest Proofs.C16_closest
   Model.C16_tree.
 From Typhon Require Model.C03_tree Model.C01_find Proofs.C01_find.
@@ -641,4 +641,325 @@ Proof.
   destruct (getitem parse (closest_call tp fill fs xn xt) item) as [i| | | |] eqn:E; try exact I.
   apply getitem_reads_closest_lemma in E. destruct E as (t & f & Hc & _). exists t, f.
   unfold closest_call in Hc. rewrite <- Hc. apply model_meets_spec_thm; [exact Hok|apply Hname].
+Qed.
+
+(* ================================================================== several filter entries at once *)
+
+Lemma forallb_perm {A} (p : A -> bool) l l' : Permutation l l' -> forallb p l = forallb p l'.
+Proof.
+  induction 1 as [|x l l' _ IH|x y l|l l' l'' _ IH1 _ IH2]; cbn.
+  - reflexivity.
+  - rewrite IH; reflexivity.
+  - destruct (p x), (p y); reflexivity.
+  - rewrite IH1; exact IH2.
+Qed.
+
+Lemma perm_filter {A} (p : A -> bool) l l' : Permutation l l' -> Permutation (filter p l) (filter p l').
+Proof.
+  induction 1 as [|x l l' _ IH|x y l|l l' l'' _ IH1 _ IH2]; cbn.
+  - constructor.
+  - destruct (p x); [constructor|]; exact IH.
+  - destruct (p x), (p y); try apply Permutation_refl. apply perm_swap.
+  - eapply Permutation_trans; eassumption.
+Qed.
+
+Lemma split_dict_perm d d' : Permutation d d' ->
+  Permutation (fst (split_dict d)) (fst (split_dict d')) /\ Permutation (snd (split_dict d)) (snd (split_dict d')).
+Proof. intros H. split; cbn; apply Permutation_map, perm_filter, H. Qed.
+
+(* white and black lists of the split dict, entry by entry *)
+Lemma wb_entries a d :
+  forallb (white_ok a) (fst (split_dict d)) && forallb (black_ok a) (snd (split_dict d)) = forallb (entry_ok a) d.
+Proof.
+  induction d as [|[[neg k] vs] d IH]; [reflexivity|].
+  unfold split_dict in *. cbn [fst snd filter entry_neg map forallb] in *.
+  unfold entry_ok at 1. cbn [entry_neg fst snd].
+  destruct neg; cbn [negb filter map forallb fst snd]; rewrite <- IH.
+  - destruct (black_ok a (entry_list (true, k, vs))); [rewrite andb_true_l; reflexivity|].
+    rewrite andb_false_l, andb_false_r. reflexivity.
+  - rewrite andb_assoc. reflexivity.
+Qed.
+
+Lemma passes_dict d xn xt f : passes (dict_query d xn xt) f = forallb (entry_ok (fattrs f)) d.
+Proof. unfold passes, dict_query, with_filters. destruct (split_dict d) as [w b] eqn:E. cbn [q_filtered q_white q_black negb orb].
+  rewrite <- wb_entries, E. reflexivity. Qed.
+
+(* a file is a candidate iff it lies in the neighbourhood, is not excluded and EVERY entry of the dict lets it pass *)
+Theorem all_filters_apply_thm fs d xn xt P t f :
+  candidate fs (dict_query d xn xt) P t f <->
+  In f fs /\ near P t f /\ excluded (dict_query d xn xt) f = false /\
+  forall e, In e d -> entry_ok (fattrs f) e = true.
+Proof.
+  unfold candidate. rewrite passes_dict, forallb_forall. tauto.
+Qed.
+
+(* the general form: white lists and black lists, whichever way they were obtained *)
+Theorem passes_all_thm q f :
+  passes q f = true <->
+  (q_filtered q = true ->
+   (forall w, In w (q_white q) -> white_ok (fattrs f) w = true) /\
+   (forall b, In b (q_black q) -> black_ok (fattrs f) b = true)).
+Proof.
+  unfold passes. destruct (q_filtered q); cbn [negb orb].
+  - rewrite andb_true_iff, !forallb_forall. split; [intros H _; exact H|intros H; apply H; reflexivity].
+  - split; [intros _ H; discriminate H|reflexivity].
+Qed.
+
+(* the order of the entries is irrelevant: to the verdict on every file, to what the checker accepts, to the specification
+   and to the answer of the model *)
+Lemma same_verdicts q q' :
+  q_filtered q = q_filtered q' -> q_xnames q = q_xnames q' -> q_xtimes q = q_xtimes q' ->
+  (forall f, passes q f = passes q' f) ->
+  (forall fs P t r, closest_ok fs q P t r = closest_ok fs q' P t r) /\
+  (forall tp fill fs t, closest_model tp fill fs q t = closest_model tp fill fs q' t).
+Proof.
+  intros Hf Hn Ht Hp.
+  assert (Ex : forall f, excluded q f = excluded q' f) by (intros f; unfold excluded; rewrite Hn, Ht; reflexivity).
+  split.
+  - intros fs P t r.
+    assert (E : forall f, candb q P t f = candb q' P t f) by (intros f; unfold candb; rewrite Hp, Ex; reflexivity).
+    unfold closest_ok. rewrite (filter_ext _ _ E).
+    destruct r as [i|]; [|reflexivity]. destruct (nth_error fs i) as [g|]; [|reflexivity]. rewrite E.
+    destruct (existsb (coversb t) (filter (candb q' P t) fs)); reflexivity.
+  - intros tp fill fs t.
+    assert (E : forall P f, found q P t f = found q' P t f) by (intros P f; unfold found; rewrite Hp, Ex; reflexivity).
+    assert (S : forall P, search fs q P t = search fs q' P t).
+    { intros P. unfold search. rewrite (filter_ext _ _ (fun p => E P (snd p))). reflexivity. }
+    unfold closest_model. rewrite S, Hf.
+    destruct (exact_name tp fill fs t) as [i|]; [|reflexivity].
+    destruct (nth_error fs i) as [g|]; [|reflexivity]. rewrite Ex. reflexivity.
+Qed.
+
+Theorem filter_order_irrelevant_thm flt w w' b b' xn xt :
+  Permutation w w' -> Permutation b b' ->
+  let q := Query flt w b xn xt in let q' := Query flt w' b' xn xt in
+  (forall f, passes q f = passes q' f) /\
+  (forall fs P t r, closest_ok fs q P t r = closest_ok fs q' P t r) /\
+  (forall fs P t r, ClosestSpec fs q P t r <-> ClosestSpec fs q' P t r) /\
+  (forall tp fill fs t, closest_model tp fill fs q t = closest_model tp fill fs q' t).
+Proof.
+  intros Hw Hb q q'.
+  assert (Hp : forall f, passes q f = passes q' f).
+  { intros f. unfold passes, q, q'. cbn [q_filtered q_white q_black].
+    rewrite (forallb_perm _ _ _ Hw), (forallb_perm _ _ _ Hb). reflexivity. }
+  destruct (same_verdicts q q' eq_refl eq_refl eq_refl Hp) as [Hc Hm].
+  split; [exact Hp|]. split; [exact Hc|]. split; [|exact Hm].
+  intros fs P t r. rewrite <- !closest_ok_iff_spec_thm, Hc. tauto.
+Qed.
+
+Theorem dict_order_irrelevant_thm d d' xn xt :
+  Permutation d d' ->
+  (forall f, passes (dict_query d xn xt) f = passes (dict_query d' xn xt) f) /\
+  (forall fs P t r, ClosestSpec fs (dict_query d xn xt) P t r <-> ClosestSpec fs (dict_query d' xn xt) P t r) /\
+  (forall tp fill fs t, closest_model tp fill fs (dict_query d xn xt) t = closest_model tp fill fs (dict_query d' xn xt) t).
+Proof.
+  intros H. destruct (split_dict_perm d d' H) as [Hw Hb].
+  unfold dict_query, with_filters.
+  destruct (split_dict d) as [w b], (split_dict d') as [w' b']. cbn [fst snd] in Hw, Hb.
+  destruct (filter_order_irrelevant_thm true w w' b b' xn xt Hw Hb) as (H1 & _ & H3 & H4).
+  split; [exact H1|]. split; [exact H3|exact H4].
+Qed.
+
+(* ---- the same on the tree (C01's vocabulary) *)
+Lemma zwhite d f : F.white_ok (fst (zsplit d)) f = forallb (fun e => fst (fst e) || zentry_ok f e) d.
+Proof.
+  induction d as [|[[neg p] vs] d IH]; [reflexivity|].
+  unfold zsplit, F.white_ok in *. cbn [fst snd filter map forallb] in *.
+  destruct neg; cbn [negb orb filter map forallb fst snd]; [exact IH|].
+  rewrite IH. unfold zentry_ok at 2. destruct (F.lookup p (F.attrs f)); reflexivity.
+Qed.
+Lemma zblack d f : F.black_ok (snd (zsplit d)) f = forallb (fun e => negb (fst (fst e)) || zentry_ok f e) d.
+Proof.
+  induction d as [|[[neg p] vs] d IH]; [reflexivity|].
+  unfold zsplit, F.black_ok in *. cbn [fst snd filter map forallb] in *.
+  destruct neg; cbn [negb orb filter map forallb fst snd]; [|exact IH].
+  rewrite IH. unfold zentry_ok at 2. destruct (F.lookup p (F.attrs f)); reflexivity.
+Qed.
+Lemma zpasses lay t d ex f :
+  F.passes (window_query lay t (fst (zsplit d)) (snd (zsplit d)) ex) f = forallb (zentry_ok f) d.
+Proof.
+  unfold F.passes, window_query, F.mkq. cbn [F.white F.black]. rewrite zwhite, zblack.
+  induction d as [|[[neg p] vs] d IH]; [reflexivity|]. cbn [forallb fst snd]. rewrite <- IH.
+  destruct neg; cbn [negb orb]; destruct (zentry_ok f (_, p, vs)); cbn [andb]; try reflexivity;
+    rewrite ?andb_false_r, ?andb_true_r; reflexivity.
+Qed.
+
+Theorem tree_all_filters_apply_thm lay t d ex f :
+  let w := fst (zsplit d) in let b := snd (zsplit d) in
+  tcand lay t w b ex f = true <->
+  F.t0 f < snd (window lay t) /\ fst (window lay t) <= F.t1 f /\
+  F.excluded_spec (window_query lay t w b ex) f = false /\ forall e, In e d -> zentry_ok f e = true.
+Proof.
+  cbv zeta. rewrite tcand_iff, zpasses, forallb_forall. tauto.
+Qed.
+
+Lemma found_perm lay t w w' b b' ex f :
+  Permutation w w' -> Permutation b b' ->
+  F.found false lay (window_query lay t w b ex) f = F.found false lay (window_query lay t w' b' ex) f.
+Proof.
+  intros Hw Hb. unfold F.found, window_query, F.mkq, F.excluded_model. cbn [F.white F.black F.qstart F.qend F.excl].
+  unfold F.white_ok, F.black_ok. rewrite (forallb_perm _ _ _ Hw), (forallb_perm _ _ _ Hb). reflexivity.
+Qed.
+
+Theorem tree_filter_order_irrelevant_thm lay fs exact filtered w w' b b' ex t :
+  Permutation w w' -> Permutation b b' ->
+  tree_closest lay fs exact filtered w b ex t = tree_closest lay fs exact filtered w' b' ex t /\
+  forall f, tcand lay t w b ex f = tcand lay t w' b' ex f.
+Proof.
+  intros Hw Hb. split.
+  - assert (S : tree_search lay fs w b ex t = tree_search lay fs w' b' ex t).
+    { unfold tree_search. cbv zeta.
+      replace (F.qend (window_query lay t w' b' ex)) with (F.qend (window_query lay t w b ex)) by reflexivity.
+      replace (F.qstart (window_query lay t w' b' ex)) with (F.qstart (window_query lay t w b ex)) by reflexivity.
+      unfold gsearch.
+      rewrite (filter_ext _ _ (fun p => found_perm lay t w w' b b' ex (snd p) Hw Hb)). reflexivity. }
+    unfold tree_closest. cbv zeta. rewrite S.
+    destruct exact as [i|]; [|reflexivity]. destruct (nth_error fs i) as [g|]; [|reflexivity].
+    replace (F.excluded_model (window_query lay t w' b' ex) g) with (F.excluded_model (window_query lay t w b ex) g)
+      by reflexivity.
+    reflexivity.
+  - intros f. unfold tcand, F.selected, F.passes, window_query, F.mkq, F.excluded_spec.
+    cbn [F.white F.black F.qstart F.qend F.excl]. unfold F.white_ok, F.black_ok.
+    rewrite (forallb_perm _ _ _ Hw), (forallb_perm _ _ _ Hb). reflexivity.
+Qed.
+
+(* ---- the two vocabularies: string placeholders / values (flat listing) and numbered ones (C01's model).  For every
+   numbering that is injective on the placeholder names in play and, per placeholder, on its values, and values of
+   which none is a proper prefix of another (black lists are prefix matches in the code, re.match), a dict of entries
+   and its numbered image give every file the same verdict: the `passes` part of `agrees` holds by construction *)
+Lemma is_prefix_refl p : is_prefix p p = true.
+Proof. induction p as [|a p IH]; [reflexivity|]. cbn. rewrite Ascii.eqb_refl. exact IH. Qed.
+
+Section Encode.
+  Variables (kc : str -> Z) (vc : str -> str -> Z) (K : str -> Prop) (V : str -> str -> Prop).
+  Hypothesis kc_inj : forall x y, K x -> K y -> kc x = kc y -> x = y.
+  Hypothesis vc_inj : forall k x y, V k x -> V k y -> vc k x = vc k y -> x = y.
+  Hypothesis pfree : forall k p v, V k p -> V k v -> is_prefix p v = true -> p = v.
+
+  Definition enc_attrs (a : list (str * str)) : list (Z * Z) := map (fun kv => (kc (fst kv), vc (fst kv) (snd kv))) a.
+  Definition enc_entry (e : fentry) : zentry := (entry_neg e, kc (snd (fst e)), map (vc (snd (fst e))) (snd e)).
+  Definition attrs_known (a : list (str * str)) : Prop := Forall (fun kv => K (fst kv) /\ V (fst kv) (snd kv)) a.
+  Definition entry_known (e : fentry) : Prop := K (snd (fst e)) /\ Forall (V (snd (fst e))) (snd e).
+
+  Lemma lookup_enc a k : attrs_known a -> K k ->
+    F.lookup (kc k) (enc_attrs a) = option_map (vc k) (alookup k a) /\
+    (forall v, alookup k a = Some v -> V k v).
+  Proof.
+    intros Ha Hk. induction Ha as [|[k' v] a [Hk' Hv] _ IH]; [split; [reflexivity|discriminate]|].
+    cbn [enc_attrs map F.lookup alookup fst snd] in *.
+    destruct (str_eqb k k') eqn:E.
+    - apply str_eqb_eq in E. subst k'. rewrite Z.eqb_refl. split; [reflexivity|].
+      intros v0 H0. injection H0 as <-. exact Hv.
+    - destruct (kc k' =? kc k) eqn:E2; [|exact IH].
+      apply Z.eqb_eq in E2. apply kc_inj in E2; [|exact Hk'|exact Hk]. subst k'.
+      rewrite str_eqb_refl in E. discriminate E.
+  Qed.
+
+  Lemma mem_enc k v vs : V k v -> Forall (V k) vs ->
+    F.memz (vc k v) (map (vc k) vs) = existsb (str_eqb v) vs /\
+    F.memz (vc k v) (map (vc k) vs) = existsb (fun p => is_prefix p v) vs.
+  Proof.
+    intros Hv Hvs. induction Hvs as [|x vs Hx _ [IH1 IH2]]; [split; reflexivity|].
+    unfold F.memz in *. cbn [map existsb]. rewrite IH1. split.
+    - f_equal. destruct (str_eqb v x) eqn:E.
+      + apply str_eqb_eq in E. subst x. apply Z.eqb_refl.
+      + destruct (vc k v =? vc k x) eqn:E2; [|reflexivity].
+        apply Z.eqb_eq in E2. apply vc_inj in E2; [|exact Hv|exact Hx]. subst x.
+        rewrite str_eqb_refl in E. discriminate E.
+    - rewrite <- IH2, IH1. f_equal. destruct (is_prefix x v) eqn:E.
+      + apply (pfree k) in E; [|exact Hx|exact Hv]. subst x. apply Z.eqb_refl.
+      + destruct (vc k v =? vc k x) eqn:E2; [|reflexivity].
+        apply Z.eqb_eq in E2. apply vc_inj in E2; [|exact Hv|exact Hx]. subst x.
+        rewrite is_prefix_refl in E. discriminate E.
+  Qed.
+
+  Lemma entry_enc a e f : F.attrs f = enc_attrs a -> attrs_known a -> entry_known e ->
+    zentry_ok f (enc_entry e) = entry_ok a e.
+  Proof.
+    intros Hf Ha [Hk Hvs]. destruct e as [[neg k] vs]. cbn [fst snd] in Hk, Hvs.
+    unfold zentry_ok, enc_entry, entry_ok, entry_neg, entry_list, white_ok, black_ok. cbn [fst snd].
+    rewrite Hf. destruct (lookup_enc a k Ha Hk) as [-> Hv].
+    destruct (alookup k a) as [v|]; cbn [option_map]; [|destruct neg; reflexivity].
+    destruct (mem_enc k v vs (Hv v eq_refl) Hvs) as [M1 M2].
+    destruct neg; [rewrite M2|rewrite M1]; reflexivity.
+  Qed.
+
+  Theorem encoded_filters_agree_thm d xn xt lay t ex g f :
+    F.attrs f = enc_attrs (fattrs g) -> attrs_known (fattrs g) -> Forall entry_known d ->
+    passes (dict_query d xn xt) g =
+    F.passes (window_query lay t (fst (zsplit (map enc_entry d))) (snd (zsplit (map enc_entry d))) ex) f.
+  Proof.
+    intros Hf Ha Hd. rewrite passes_dict, zpasses.
+    induction Hd as [|e d He _ IH]; [reflexivity|].
+    cbn [map forallb]. rewrite IH, (entry_enc _ _ _ Hf Ha He). reflexivity.
+  Qed.
+End Encode.
+
+(* the composition with C01's find for a dict of several entries: the flat model under the dict = the composed tree model
+   under the numbered white / black lists, for every numbering as above *)
+Theorem dict_composed_is_flat_thm (kc : str -> Z) (vc : str -> str -> Z) (K : str -> Prop) (V : str -> str -> Prop)
+  tp fill lay fs emb d xn xt t :
+  (forall x y, K x -> K y -> kc x = kc y -> x = y) ->
+  (forall k x y, V k x -> V k y -> vc k x = vc k y -> x = y) ->
+  (forall k p v, V k p -> V k v -> is_prefix p v = true -> p = v) ->
+  let zd := map (enc_entry kc vc) d in
+  let w := fst (zsplit zd) in let b := snd (zsplit zd) in
+  fields_of_layout tp lay -> tree_hyps lay fs -> window_ok lay t -> Forall (fun '(a, b) => a <= b) xt ->
+  (forall f, In f fs ->
+     ft0 (emb f) = F.t0 f /\ ft1 (emb f) = F.t1 f /\
+     F.attrs f = enc_attrs kc vc (fattrs (emb f)) /\ attrs_known K V (fattrs (emb f)) /\
+     excluded (dict_query d xn xt) (emb f) = F.excluded_spec (window_query lay t w b xt) f) ->
+  Forall (entry_known K V) d -> Forall file_ok (map emb fs) ->
+  closest_model tp fill (map emb fs) (dict_query d xn xt) t =
+  t2o (tree_closest lay fs (exact_name tp fill (map emb fs) t) true w b xt t).
+Proof.
+  intros Hk Hv Hp zd w b Hl Ht Hw Hx Hf Hd Hok.
+  apply (composed_is_flat_thm tp fill lay fs emb (dict_query d xn xt) w b t Hl Ht Hw Hx); [|exact Hok].
+  intros f Hin. destruct (Hf f Hin) as (H0 & H1 & Ha & Hkn & He).
+  split; [exact H0|]. split; [exact H1|]. split; [|exact He].
+  exact (encoded_filters_agree_thm kc vc K V Hk Hv Hp d xn xt lay t xt (emb f) f Ha Hkn Hd).
+Qed.
+
+(* ---- the numbering by positions meets the hypotheses of encoded_filters_agree *)
+Lemma pos_nonneg v l : 0 <= pos v l.
+Proof. induction l as [|x l IH]; cbn [pos]; [lia|]. destruct (str_eqb v x); lia. Qed.
+
+Lemma str_eqb_neq a b : str_eqb a b = false -> a <> b.
+Proof. intros E ->. rewrite str_eqb_refl in E. discriminate E. Qed.
+
+Lemma pos_inj l x y : In x l -> pos x l = pos y l -> x = y.
+Proof.
+  induction l as [|a l IH]; intros Hx E; [destruct Hx|]. cbn [pos] in E.
+  destruct (str_eqb x a) eqn:Ex, (str_eqb y a) eqn:Ey.
+  - apply str_eqb_eq in Ex, Ey. congruence.
+  - pose proof (pos_nonneg y l). lia.
+  - pose proof (pos_nonneg x l). lia.
+  - apply IH; [|lia]. destruct Hx as [->|Hx]; [|exact Hx]. rewrite str_eqb_refl in Ex. discriminate Ex.
+Qed.
+
+Lemma prefix_free_spec vs : prefix_free vs = true ->
+  forall p v, In p vs -> In v vs -> is_prefix p v = true -> p = v.
+Proof.
+  induction vs as [|a vs IH]; intros H p v Hp Hv E; [destruct Hp|].
+  cbn [prefix_free] in H. apply andb_true_iff in H. destruct H as [Ha Hr]. rewrite forallb_forall in Ha.
+  destruct Hp as [<-|Hp], Hv as [<-|Hv].
+  - reflexivity.
+  - specialize (Ha v Hv). rewrite E in Ha. discriminate Ha.
+  - specialize (Ha p Hp). rewrite E, andb_false_r in Ha. discriminate Ha.
+  - exact (IH Hr p v Hp Hv E).
+Qed.
+
+Theorem pool_numbering_ok_thm ps : pools_ok ps = true ->
+  (forall x y, pool_K ps x -> pool_K ps y -> pool_kc ps x = pool_kc ps y -> x = y) /\
+  (forall k x y, pool_V ps k x -> pool_V ps k y -> pool_vc ps k x = pool_vc ps k y -> x = y) /\
+  (forall k p v, pool_V ps k p -> pool_V ps k v -> is_prefix p v = true -> p = v).
+Proof.
+  intros H. split; [|split].
+  - intros x y Hx _ E. exact (pos_inj _ x y Hx E).
+  - intros k x y Hx _ E. exact (pos_inj _ x y Hx E).
+  - intros k p v Hp Hv E. unfold pool_V, pool_of in *.
+    destruct (find (fun p0 => str_eqb k (fst p0)) ps) as [pl|] eqn:Ef; [|destruct Hp].
+    apply find_some in Ef. destruct Ef as [Hin _].
+    unfold pools_ok in H. rewrite forallb_forall in H.
+    exact (prefix_free_spec _ (H pl Hin) p v Hp Hv E).
 Qed.
